@@ -197,7 +197,7 @@ pub fn run(ctx: &Ctx) -> Report {
     }
     total.merge(st);
     total.exhaustive_parts.push("40 argument-taking keywords x {missing argument (first and second), 4 words invalid from the first character} x 6 prefixes x 4 suffixes x {plain, parenthesised}".into());
-    let cases = ctx.tier.pick(20_000u32, 300_000u32);
+    let cases = ctx.tier.pick(200_000u32, 2_000_000u32);
     let rnd = run_shards(16, |shard| {
         let mut st = Stats::new();
         // unknown words (no keyword as a prefix) at random positions
